@@ -534,6 +534,10 @@ class KTHierarchyPropagator:
         """
         rhot = DensityMatrixEvolution(timeaxis=self.timeaxis, rhoi=rhoi)
         
+        # every propagation starts from an empty hierarchy; what a previous
+        # propagation left in the auxiliary operators must not enter
+        self.hy.reset_ados()
+        
         if free_hierarchy:
             
             # first act with lifting superoperators
